@@ -16,8 +16,13 @@ def run(ctx):
         rule=("non-trivial: at least 2 instances started and min(tokens, ammo) >= 2; distinct = distinct case lines "
               "(pool configuration: shared/per-instance, discard_overflow, profile, ammo bound, startup profile, shot duration, schedule start offset)"),
         key_fn=key_fn,
-        bridge_files=["Properties/Links.v", "Properties/Links_conc.v"],  # composition theorems L1-L5 (proofs in Proofs/Link*.v), counted as extra obligations
+        translators=[("gofn-instance", "GoFnInstanceGen.v")],  # core/engine/instance.go instance.Run re-read as IMP syntax (traced)
+        # composition theorems L1-L5 (proofs in Proofs/Link*.v) and the bridge instance.Run = model sections
+        # (proofs in Proofs/InstanceRunProofs.v, re-checked by make whenever the generated syntax changes), counted as extra obligations
+        bridge_files=["Properties/Links.v", "Properties/Links_conc.v", "Gen/GoFnInstance_bridge.v"],
         trusted=[
+            "translator harness/cmd/translate gofn-instance (go/ast -> Lib/Imp.v syntax, traced: every collaborator call recorded in order; closure inlined, "
+            "deferred calls placed before the returns, logging dropped, recover() = nil) and the IMP semantics of Lib/Imp.v (Go ints unbounded)",
             "extraction: ExtrOcamlBasic only; OCaml driver ocaml/C03/main.ml + ocaml/common/conv.ml",
             "correspondence harness harness/cmd/hC03: real engine.Engine, real schedules behind a recording wrapper, counting provider, recording gun/aggregator; "
             "one mutex serialises each wrapped operation with its log entry; goroutine ids from runtime.Stack",
